@@ -220,9 +220,9 @@ def load_known(prop):
         l = l.strip()
         if not l or l.startswith('#') or l.startswith('fixed:'):
             continue
-        m = re.match(r'finding:\s+property=(\S+)\s+id=(\S+)\s+stream=(\S+)\s+case=(\S+)\s+(.*)', l)
+        m = re.match(r'finding:\s+property=(\S+)\s+id=(\S+)\s+stream=(\S+)\s+monitor=(\S+)\s+case=(\S+)\s+(.*)', l)
         if m and m.group(1) == prop:
-            findings.append(dict(id=m.group(2), stream=m.group(3), case=os.path.join(ROOT, m.group(4)), what=m.group(5)))
+            findings.append(dict(id=m.group(2), stream=m.group(3), monitor=m.group(4), case=os.path.join(ROOT, m.group(5)), what=m.group(6)))
     return findings
 
 
@@ -352,7 +352,7 @@ def run_check(prop, tier, seed, replay=None):
                 if not os.path.exists(k['case']):
                     continue
                 kc, ko = run_harness(k['stream'], replay=k['case'], workdir=work)
-                kv = run_monitor(prop, kc, ko)
+                kv = run_monitor(k['monitor'], kc, ko)
                 if any(not v.startswith('PASS') for v in kv):
                     print('KNOWN-FINDING: property=%s %s (%s)' % (prop, k['what'], k['id']))
                     known_reported.append(k['id'])
